@@ -37,7 +37,7 @@ func main() {
 
 func cases(tier string) int {
 	if tier == "thorough" {
-		return 80000
+		return 600000
 	}
 	return 40000
 }
